@@ -36,6 +36,22 @@
              through unsigned long and _Bool are never subsampled.  op in - / < ==, F and the form of
              rhs are enumerated by the second value index.
 
+     tcv     a truth test whose operand is an *rvalue just produced in a register*, not an object that
+             is loaded: E = (T)x / (t = x) / g(x) returning T / -(T)x / (k, (T)x) with x of any of the
+             12 arithmetic types S and T a floating type, tested by if-while-for / ! / ?: / (_Bool) /
+             E && k / E || k / y && E / y || E (y a double: the register E is produced in was just
+             used for a value of another format).  Level A: Truth(Conv(S, T, x)).  The case's "b" is
+             T, the second value index enumerates the form of E.  (6.3.1.2, 6.5.3.3, 6.5.13-15, 6.8.4.1,
+             6.8.5: "compares unequal to 0" is a property of the *value of type T* - whatever else the
+             register that holds it contains.)
+     tar     the same truth tests with E = x op y, op in + - * /, over values whose results are
+             +0, -0 (underflow, cancellation), NaN (inf - inf, 0/0), infinities; the case's "b" is op
+     lim     the macros of <float.h> (5.2.4.2.2): every one is a function of the format record
+             [p, emin, emax] that the arithmetic families are checked with, of the evaluation
+             method (operations are evaluated in the format of their type: 0) and of the rounding
+             of Round (to nearest: 1); integer-valued ones also in #if
+     szof    the predefined __SIZEOF_<T>__ macros = sizeof(T) (psABI sizes; long double is 16)
+
    Every vector also says whether one of its operands or its result is a *special* floating
    value (sp: -0, NaN, an infinity or a subnormal).  The replay embeds each vector in several
    program contexts (operands from memory; constants in a run-time expression; static
@@ -143,6 +159,79 @@ ChTab(t) == IF IsF(t) THEN LET F == Fmt(t) IN
                              IntToFloat(F, IV(FALSE, XFromDigits(<<3,0,0,0,0,0,0,0,0,0>>))), Vd(F, 0, PA(63, 40), 0), NaN>>
              ELSE MixTab(t)
 
+(* truth tests of rvalues: the source values of the conversion (x of type S); for a floating S the
+   values whose conversion to a narrower format is +0 / -0 (underflow) although the source is not,
+   the smallest values that stay non-zero, NaN, -inf *)
+TcDy == <<Dy(0, X(1), -127), Dy(0, X(1), -149), Dy(0, X(1), -150), Dy(1, X(3), -151), Dy(1, X(1), -200),
+          Dy(0, X(1), -1074), Dy(0, X(1), -1075), Dy(1, X(3), -1076), Dy(0, X(1), -2000)>>
+TcTab(t) == IF IsF(t) THEN LET F == Fmt(t) IN
+                           <<Zero(0), Zero(1), NaN, Inf(1), MinDen(F), Neg(MinDen(F)), MinNorm(F), Neg(MinNorm(F)),
+                             FI(F, 1), Neg(Third(F)), MaxFin(F)>>
+                           \o FoldLeft(LAMBDA acc, d : IF Exact(F, d[1], d[2], d[3]) /\ Round(F, d[1], d[2], d[3], FALSE) \notin {MinDen(F), Neg(MinDen(F)), MinNorm(F)}
+                                                       THEN Append(acc, Round(F, d[1], d[2], d[3], FALSE)) ELSE acc, << >>, TcDy)
+             ELSE IF t = "bool" THEN <<IV(FALSE, X(0)), IV(FALSE, X(1))>>
+             ELSE LET w == IntW(t) IN
+                  <<IV(FALSE, X(0)), IV(FALSE, X(1)), IV(FALSE, IF IntSg(t) THEN Pm(w - 1, 1) ELSE Pm(w, 1))>>
+                  \o (IF IntSg(t) THEN <<IV(TRUE, X(1))>> ELSE << >>)
+TCtx == {"if", "not", "cond", "bool", "land", "lor", "rland", "rlor"}
+TForm == <<"cast", "asg", "ret", "neg", "comma">>
+(* the left operand of y && E / y || E: a double that is true resp. false and whose object representation has
+   bits set in the upper half *)
+TcY(c) == IF c = "rland" THEN Third(F64) ELSE Zero(1)
+CtxVal(c, t) == CASE c = "not" -> ~t
+                  [] c = "land" -> t /\ TRUE           \* E && k, k = 1
+                  [] c = "lor" -> t \/ FALSE           \* E || k, k = 0
+                  [] c = "rland" -> Truth(TcY(c)) /\ t
+                  [] c = "rlor" -> Truth(TcY(c)) \/ t
+                  [] OTHER -> t                         \* if / while / for, ?:, (_Bool)
+TaTab(F) == <<NaN, Zero(0), Zero(1), FI(F, 1), Neg(FI(F, 1)), MinDen(F), Neg(MinDen(F)), MaxFin(F), Inf(0), Third(F)>>
+
+(* ---- <float.h> (5.2.4.2.2) and the __SIZEOF_*__ macros ---------------------------------
+   C's model is x = s * b^e * 0.f1 f2 ... fp, so e_min(C) = emin + 1 and e_max(C) = emax + 1 for the
+   IEEE exponents of the format record.  floor(log10(m * 2^s)) is computed exactly:
+   10^q <= m * 2^s  <=>  5^q <= m * 2^(s-q)  (s >= q in every use).                          *)
+Pow5(q) == LET big == FoldLeft(LAMBDA acc, k : XMul(X(1220703125), acc), XOne, [k \in 1..(q \div 13) |-> k])   \* 5^13 < 2^31
+           IN FoldLeft(LAMBDA acc, k : XMul(X(5), acc), big, [k \in 1..(q % 13) |-> k])
+FloorLog10(m, s) ==
+  LET q0 == (((XBitLen(m) + s - 1) * 30103) \div 100000) - 1      \* a lower estimate: the answer is q0 .. q0 + 2
+  IN Once(Pow5(q0), LAMBDA p0 :
+       LET Le(p, q) == XCmp(p, XShl(m, s - q)) <= 0
+           p1 == XMul(X(5), p0)  p2 == XMul(X(5), p1)  p3 == XMul(X(5), p2)
+       IN IF ~Le(p0, q0) \/ Le(p3, q0 + 3) THEN -1000000                 \* the estimate is wrong: no vector
+          ELSE IF Le(p2, q0 + 2) THEN q0 + 2 ELSE IF Le(p1, q0 + 1) THEN q0 + 1 ELSE q0)
+LimPer == {"MANT_DIG", "DIG", "MIN_EXP", "MAX_EXP", "MIN_10_EXP", "MAX_10_EXP", "DECIMAL_DIG", "HAS_SUBNORM",
+           "MAX", "MIN", "EPSILON", "TRUE_MIN"}
+LimGlobal == {"FLT_RADIX", "FLT_EVAL_METHOD", "FLT_ROUNDS", "DECIMAL_DIG"}
+LimIsInt(m) == m \notin {"MAX", "MIN", "EPSILON", "TRUE_MIN"}
+LimInt(m, F) ==
+  CASE m = "MANT_DIG" -> F.p
+    [] m = "MIN_EXP" -> F.emin + 1
+    [] m = "MAX_EXP" -> F.emax + 1
+    [] m = "DIG" -> FloorLog10(XOne, F.p - 1)                          \* floor((p-1) log10 b), b not a power of 10
+    [] m = "DECIMAL_DIG" -> 2 + FloorLog10(XOne, F.p)                  \* ceil(1 + p log10 b)
+    [] m = "MIN_10_EXP" -> -FloorLog10(XOne, -F.emin)                  \* ceil(log10 b^(emin(C)-1))
+    [] m = "MAX_10_EXP" -> FloorLog10(Pm(F.p, 1), F.emax - F.p + 1)    \* floor(log10((1 - b^-p) b^emax(C)))
+    [] m = "HAS_SUBNORM" -> 1                                          \* Round produces subnormals
+LimFlt(m, F) ==
+  CASE m = "MAX" -> MaxFin(F)
+    [] m = "MIN" -> MinNorm(F)
+    [] m = "EPSILON" -> Round(F, 0, XOne, 1 - F.p, FALSE)              \* b^(1-p)
+    [] m = "TRUE_MIN" -> MinDen(F)
+LimGlobalInt(m) ==
+  CASE m = "FLT_RADIX" -> 2                                            \* a finite value is m * 2^e
+    [] m = "FLT_EVAL_METHOD" -> 0                                      \* Arith(Fmt(t), ...): every operation in the format of its type
+    [] m = "FLT_ROUNDS" -> 1                                           \* Round: to nearest
+    [] m = "DECIMAL_DIG" -> LimInt("DECIMAL_DIG", F80)                 \* of the widest supported type
+LimPfx(t) == CASE t = "float" -> "FLT" [] t = "double" -> "DBL" [] t = "ldouble" -> "LDBL" [] OTHER -> ""
+II(n) == IV(n < 0, X(IF n < 0 THEN -n ELSE n))
+(* <<macro, operand of sizeof in C, size>> *)
+SzTab == <<<<"__SIZEOF_SHORT__", "short", StoreW("short") \div 8>>, <<"__SIZEOF_INT__", "int", StoreW("int") \div 8>>,
+           <<"__SIZEOF_LONG__", "long", StoreW("long") \div 8>>, <<"__SIZEOF_LONG_LONG__", "long long", WLong \div 8>>,
+           <<"__SIZEOF_FLOAT__", "float", SizeOf("float")>>, <<"__SIZEOF_DOUBLE__", "double", SizeOf("double")>>,
+           <<"__SIZEOF_LONG_DOUBLE__", "long double", SizeOf("ldouble")>>,
+           <<"__SIZEOF_POINTER__", "void *", WLong \div 8>>, <<"__SIZEOF_PTRDIFF_T__", "(char *)0 - (char *)0", WLong \div 8>>,
+           <<"__SIZEOF_SIZE_T__", "sizeof(int)", WLong \div 8>>>>
+
 (* ---- constants --------------------------------------------------------------- *)
 DecMan == <<<<1>>, <<2>>, <<3>>, <<5>>, <<7>>, <<9>>, <<1,7>>, <<2,5>>, <<3,3>>, <<1,2,3>>, <<1,0,2,4>>, <<6,5,5,3,6>>,
             <<1,6,7,7,7,2,1,7>>, <<1,2,3,4,5,6,7,8,9>>, <<4,2,9,4,9,6,7,2,9,5>>,
@@ -175,11 +264,14 @@ ASSUME TLCSet(23, TabOf(LAMBDA t : CmTab(Fmt(t)), FSeq))
 ASSUME TLCSet(24, TabOf(MixTab, TSeq))
 ASSUME TLCSet(25, TabOf(LAMBDA t : D2Tab(Fmt(t)), FSeq))
 ASSUME TLCSet(26, TabOf(ChTab, TSeq))
+ASSUME TLCSet(28, TabOf(TcTab, TSeq))
+ASSUME TLCSet(29, TabOf(LAMBDA t : TaTab(Fmt(t)), FSeq))
 ASSUME TLCSet(27, TabOf(LAMBDA t : LET F == Fmt(t)  y == Third(F)  z == Vd(F, 1, X(29), -2) IN <<y, z, Add(F, y, z)>>, FSeq))
 
 D2 == fam \in {"d2l", "d2r"}
 Ch == fam \in {"chl", "chr"}
-Big == fam \in {"arith", "cmp", "dec", "hex", "mixed", "opasg", "d2l", "d2r", "chl", "chr"} \/ (fam = "truth" /\ op \in {"land", "lor"})
+D2x == D2 \/ fam = "tar"                       \* both operands of type a, the case's "b" is an operator
+NoOp == fam \in {"dec", "hex", "lim", "szof"}  \* no operand values
 Unary == fam \in {"conv", "neg", "vararg"} \/ (fam = "truth" /\ op \in {"if", "not", "cond"})
 Tab(t) == CASE fam = "conv" -> TLCGet(21)[t]
             [] fam \in {"arith", "neg", "vararg"} -> TLCGet(22)[t]
@@ -187,8 +279,13 @@ Tab(t) == CASE fam = "conv" -> TLCGet(21)[t]
             [] fam \in {"mixed", "opasg"} -> TLCGet(24)[t]
             [] D2 -> TLCGet(25)[t]
             [] Ch -> TLCGet(26)[t]
-NI1 == CASE fam = "dec" -> Len(DecMan) [] fam = "hex" -> Len(HexMan) [] OTHER -> Len(Tab(a))
-NJ1 == CASE fam = "dec" -> Len(DecExp) [] fam = "hex" -> Len(HexExp) [] Unary -> 1 [] D2 -> Len(Tab(a)) [] Ch -> 6 [] OTHER -> Len(Tab(b))
+            [] fam = "tcv" -> TLCGet(28)[t]
+            [] fam = "tar" -> TLCGet(29)[t]
+NI1 == CASE fam = "dec" -> Len(DecMan) [] fam = "hex" -> Len(HexMan) [] fam \in {"lim", "szof"} -> 1 [] OTHER -> Len(Tab(a))
+NJ1 == CASE fam = "dec" -> Len(DecExp) [] fam = "hex" -> Len(HexExp) [] Unary -> 1 [] fam \in {"lim", "szof"} -> 1
+         [] D2x -> Len(Tab(a)) [] Ch -> 6 [] fam = "tcv" -> Len(TForm) [] OTHER -> Len(Tab(b))
+(* the forms of E other than the plain cast are subsampled in the quick tier *)
+Big == fam \in {"arith", "cmp", "dec", "hex", "mixed", "opasg", "d2l", "d2r", "chl", "chr", "tar"} \/ (fam = "truth" /\ op \in {"land", "lor"})
 (* conversion chains: the second index enumerates (F, form of the right-hand operand) *)
 ChF(jj) == FSeq[((jj - 1) % 3) + 1]
 ChSum(jj) == (jj - 1) \div 3 = 1
@@ -215,14 +312,20 @@ Cases ==
   \cup {<<"vararg", "-", t, "-">> : t \in {"float", "double"}}
   \cup {<<f, o, t, u>> : f \in {"chl", "chr"}, o \in {"sub", "div", "lt", "eq"}, t \in ATypes, u \in ATypes}
   \cup {<<f, o, t, o2>> : f \in {"d2l", "d2r"}, o \in {"add", "sub", "div"}, t \in FTypes, o2 \in {"sub", "div", "mul"}}
+  \cup {<<"tcv", c, t, u>> : c \in TCtx, t \in ATypes, u \in FTypes}
+  \cup {<<"tar", c, t, o2>> : c \in TCtx, t \in FTypes, o2 \in ArOps}
+  \cup {<<"lim", m, t, "-">> : m \in LimPer, t \in FTypes}
+  \cup {<<"lim", m, "-", "-">> : m \in LimGlobal}
+  \cup {<<"szof", SzTab[k][1], "-", "-">> : k \in 1..Len(SzTab)}
 CaseOK(cs) == cs[1] \in {"mixed", "opasg"} => (cs[3] # cs[4] /\ (IsF(cs[3]) \/ IsF(cs[4])))
 OIdx(o) == CASE o = "add" -> 1 [] o = "sub" -> 2 [] o = "mul" -> 3 [] o = "div" -> 4 [] o = "lt" -> 5 [] o = "le" -> 6
              [] o = "gt" -> 7 [] o = "ge" -> 8 [] o = "eq" -> 9 [] o = "ne" -> 10 [] o = "land" -> 11 [] o = "lor" -> 12
              [] o = "cond" -> 13 [] o = "inc" -> 14 [] o = "dec" -> 15 [] o = "postinc" -> 16 [] o = "postdec" -> 17
+             [] o = "if" -> 18 [] o = "not" -> 19 [] o = "bool" -> 20 [] o = "rland" -> 21 [] o = "rlor" -> 22
              [] OTHER -> 0
 TI(t) == IF t = "-" THEN 0 ELSE TIdx(t)
-CaseHash(cs) == OIdx(cs[2]) * 101 + TI(cs[3]) * 7 + (IF cs[1] \in {"d2l", "d2r"} THEN OIdx(cs[4]) * 17 ELSE TI(cs[4]) * 13)
-Pick(ii, jj) == (Big /\ ~(fam = "dec" /\ ii \in DecAlways) /\ ~(Ch /\ b \in {"ulong", "bool"})) => (hb + ii * 31 + jj * 37 + Seed) % Stride = 0
+CaseHash(cs) == OIdx(cs[2]) * 101 + TI(cs[3]) * 7 + (IF cs[1] \in {"d2l", "d2r", "tar"} THEN OIdx(cs[4]) * 17 ELSE TI(cs[4]) * 13)
+Pick(ii, jj) == ((Big \/ (fam = "tcv" /\ jj > 1)) /\ ~(fam = "dec" /\ ii \in DecAlways) /\ ~(Ch /\ b \in {"ulong", "bool"})) => (hb + ii * 31 + jj * 37 + Seed) % Stride = 0
 
 (* ---- Level A on the current case ------------------------------------------------ *)
 ValBytes(t, v) == IF IsF(t) THEN Encode(Fmt(t), v) ELSE IntBytes(t, v)
@@ -273,6 +376,16 @@ Expect(ii, jj) ==
                        IN IF op \in {"lt", "eq"} THEN R(TRUE, "int", BoolIV(Rel(op, l, r)))
                           ELSE R(TRUE, ft, Arith(F, op, l, r))
     [] fam = "vararg" -> R(TRUE, ArgPromote(a), FloatToFloat(Fmt(ArgPromote(a)), Tab(a)[ii]))
+    [] fam = "tcv" -> LET x == Tab(a)[ii] IN
+                      IF ~ConvDef(a, b, x) THEN R(FALSE, "int", 0)
+                      ELSE LET v == Conv(a, b, x)
+                               e == IF TForm[jj] = "neg" THEN Neg(v) ELSE v      \* the other forms have the value (T)x
+                           IN R(TRUE, "int", BoolIV(CtxVal(op, Truth(e))))
+    [] fam = "tar" -> R(TRUE, "int", BoolIV(CtxVal(op, Truth(Arith(Fmt(a), b, Tab(a)[ii], Tab(a)[jj])))))
+    [] fam = "lim" -> IF a = "-" THEN R(TRUE, "int", II(LimGlobalInt(op)))
+                      ELSE IF LimIsInt(op) THEN LET n == LimInt(op, Fmt(a)) IN R(n > -1000000, "int", II(n))
+                      ELSE R(TRUE, a, LimFlt(op, Fmt(a)))
+    [] fam = "szof" -> R(TRUE, "int", II(SzTab[CHOOSE k \in 1..Len(SzTab) : SzTab[k][1] = op][3]))
 
 (* -0, NaN, infinities and subnormals: the values whose object representation is not determined by
    "the number" alone, or that an implementation is tempted to treat as 0 *)
@@ -280,23 +393,31 @@ IsSpecial(t, v) == IsF(t) /\ (v.k \in {"nan", "inf"} \/ (v.k = "zero" /\ v.s = 1
                               \/ (v.k = "fin" /\ XBitLen(v.m) < Fmt(t).p))
 EmitR(r, ii, jj) ==
   IF ~r.ok THEN FALSE
-  ELSE CSVWrite("%1$s", <<ToJson([f |-> fam, op |-> op, at |-> a, bt |-> IF D2 THEN a ELSE IF Ch THEN ChF(jj) ELSE b, rt |-> r.t, sz |-> SizeOf(r.t),
-                                   it |-> IF Ch THEN b ELSE "",
-                                   op2 |-> IF D2 THEN b ELSE "",
+  ELSE CSVWrite("%1$s", <<ToJson([f |-> fam, op |-> op, at |-> a, bt |-> IF D2x THEN a ELSE IF Ch THEN ChF(jj) ELSE b, rt |-> r.t,
+                                   sz |-> IF fam = "szof" THEN XToInt(r.v.mag) ELSE SizeOf(r.t),
+                                   it |-> CASE Ch -> b [] fam = "tcv" -> TForm[jj]
+                                            [] fam = "szof" -> SzTab[CHOOSE k \in 1..Len(SzTab) : SzTab[k][1] = op][2]
+                                            [] OTHER -> "",
+                                   op2 |-> IF D2x THEN b ELSE "",
                                    zb |-> IF D2 THEN ValBytes(a, Tab(a)[ZIdx(ii, jj)])
                                           ELSE IF Ch /\ ChSum(jj) THEN ValBytes(ChF(jj), ChZ(jj)) ELSE << >>,
-                                   xb |-> IF fam \in {"dec", "hex"} THEN << >> ELSE ValBytes(a, Tab(a)[ii]),
-                                   yb |-> IF Unary \/ fam \in {"dec", "hex"} THEN << >>
-                                          ELSE IF D2 THEN ValBytes(a, Tab(a)[jj])
+                                   xb |-> IF NoOp THEN << >> ELSE ValBytes(a, Tab(a)[ii]),
+                                   yb |-> IF Unary \/ NoOp THEN << >>
+                                          ELSE IF fam = "tcv" THEN (IF op \in {"rland", "rlor"} THEN ValBytes("double", TcY(op)) ELSE << >>)
+                                          ELSE IF D2x THEN ValBytes(a, Tab(a)[jj])
                                           ELSE IF Ch THEN ValBytes(ChF(jj), ChY(jj)) ELSE ValBytes(b, Tab(b)[jj]),
                                    rb |-> ValBytes(r.t, r.v),
                                    rn |-> IsF(r.t) /\ r.v.k = "nan",
                                    sp |-> \/ IsSpecial(r.t, r.v)
-                                          \/ (fam \notin {"dec", "hex"} /\ IsSpecial(a, Tab(a)[ii]))
-                                          \/ (~Unary /\ ~Ch /\ fam \notin {"dec", "hex"} /\ IsSpecial(IF D2 THEN a ELSE b, Tab(IF D2 THEN a ELSE b)[jj]))
+                                          \/ (~NoOp /\ IsSpecial(a, Tab(a)[ii]))
+                                          \/ (~Unary /\ ~Ch /\ ~NoOp /\ fam # "tcv" /\ IsSpecial(IF D2x THEN a ELSE b, Tab(IF D2x THEN a ELSE b)[jj]))
                                           \/ (D2 /\ IsSpecial(a, Tab(a)[ZIdx(ii, jj)])),
-                                   man |-> CASE fam = "dec" -> Str(DecMan[ii]) [] fam = "hex" -> Str(HexMan[ii]) [] OTHER -> "",
-                                   ex |-> CASE fam = "dec" -> DecExp[jj] [] fam = "hex" -> HexExp[jj] [] OTHER -> 0,
+                                   man |-> CASE fam = "dec" -> Str(DecMan[ii]) [] fam = "hex" -> Str(HexMan[ii])
+                                             [] fam = "lim" -> (IF a = "-" THEN op ELSE LimPfx(a) \o "_" \o op)
+                                             [] fam = "szof" -> op [] OTHER -> "",
+                                   ex |-> CASE fam = "dec" -> DecExp[jj] [] fam = "hex" -> HexExp[jj]
+                                            [] fam \in {"lim", "szof"} /\ r.t = "int" -> (IF r.v.neg THEN -XToInt(r.v.mag) ELSE XToInt(r.v.mag))
+                                            [] OTHER -> 0,
                                    i |-> ii, j |-> jj])>>, IOEnv.OUT)
 Emit(ii, jj) == Once(Expect(ii, jj), LAMBDA r : EmitR(r, ii, jj))
 
